@@ -47,19 +47,28 @@ Calls ==
     Render_(S("q"), <<>>),                \* resolves through "q.liquid"
     Include_(S("missing"), <<>>), Render_(S("missing"), <<>>),
     Include_(S("broken"), <<>>), Render_(S("broken"), <<>>),
-    RenderFor(S("missing"), Range(3, 2), "a", <<>>) }   \* nothing to iterate: never looked up
+    RenderFor(S("missing"), Range(3, 2), "a", <<>>),    \* nothing to iterate: never looked up
+    Include_(S("p.liquid"), <<>>), Render_(S("p.liquid"), <<>>),   \* a second spelling with its own source
+    Include_(S("broken.liquid"), <<>>) }
 
+\* two uses of related names within one parser lifetime (both spellings of a
+\* name, a broken name whose .liquid twin is fine), in both orders
+Duals == { Render_(S("p"), <<>>), Include_(S("p.liquid"), <<>>), Render_(S("broken"), <<>>),
+           Include_(S("broken.liquid"), <<>>), Render_(S("q"), <<>>), Include_(S("q.liquid"), <<>>) }
 Callers ==
   {<<Assign_("a", S("s"))>> \o pre \o wrap \o <<Read("a"), Read("b"), Read("x"), Inc("a"), Cycle_, Txt("$")>> :
      pre \in {<<>>, <<Cycle_, Inc("a")>>},
-     wrap \in UNION {{ <<c>>, <<Loop("x", <<Out(V("x")), c, Txt(";")>>)>>, <<Dead(<<c>>), Txt("d")>> } : c \in Calls}}
+     wrap \in UNION {{ <<c>>, <<Loop("x", <<Out(V("x")), c, Txt(";")>>)>>, <<Dead(<<c>>), Txt("d")>> } : c \in Calls}} \cup
+  {<<c1, Txt("|"), c2, Txt("|"), c1, Txt("$")>> : c1 \in Duals, c2 \in Duals}
 
 Parts(body) ==
-  [n \in {"p", "p2", "q.liquid", "broken"} |->
+  [n \in {"p", "p2", "q.liquid", "broken", "broken.liquid", "p.liquid"} |->
      CASE n = "p" -> [ok |-> TRUE, body |-> body]
        [] n = "p2" -> [ok |-> TRUE, body |-> P2Body]
        [] n = "q.liquid" -> [ok |-> TRUE, body |-> <<Txt("Q"), Read("a")>>]
-       [] n = "broken" -> [ok |-> FALSE]]
+       [] n = "broken" -> [ok |-> FALSE]
+       [] n = "broken.liquid" -> [ok |-> TRUE, body |-> <<Txt("BL")>>]
+       [] n = "p.liquid" -> [ok |-> TRUE, body |-> <<Txt("PL"), Read("b")>>]]
 
 DataChoices == { [n \in {"pv", "arr"} |-> IF n = "pv" THEN StrV("p") ELSE ArrV(<<IntV(8), IntV(9)>>)],
                  [n \in {"pv", "arr", "b"} |-> CASE n = "pv" -> StrV("p") [] n = "arr" -> ArrV(<<IntV(8)>>) [] n = "b" -> StrV("d")] }
